@@ -23,6 +23,10 @@ type World struct {
 	cs        *Contracts
 	contracts map[string]*FuncContract
 	effCache  map[*ssa.Function]*Effects
+	effInfos    map[*ssa.Function]*effInfo
+	siteCallees map[ssa.CallInstruction][]*ssa.Function
+	prefixID    map[string]int
+	prefixNames []string
 	repo      string
 	specDir   string
 }
@@ -265,7 +269,7 @@ func (w *World) targetPrefix(fc *FuncContract, m *CE) string {
 func (w *World) funcsForProp(prop string) []*FuncContract {
 	var out []*FuncContract
 	for _, fc := range w.contracts {
-		if fc.Trusted || strings.HasPrefix(fc.Name, "iface ") {
+		if fc.Trusted || strings.HasPrefix(fc.Name, "iface ") || strings.HasPrefix(fc.Name, "field ") {
 			continue
 		}
 		if prop == "" || contains(fc.Props, prop) {
